@@ -346,5 +346,11 @@ def replay(payload, drv):
         ok = run_["result"][0] == "ok" and run_["info"].get("returned") and run_["info"].get("sched_error")
         return {"returned": run_["info"].get("returned"), "sched_error": run_["info"].get("sched_error"),
                 "violations": [] if ok else [V("run-did-not-return", f"{run_['result'][0]} after {c['targets']} failed", site="TickitSimulation.run")]}
-    analyse(c["scenario"], run_, c["target"], c["n"], c["hook"], res, c)
+    failed = any(e["msg"]["m"] == "ComponentException" for e in run_["trace"].of("produce"))
+    if not failed:
+        raised = [e for e in run_["trace"].of("probe-raised") if e["comp"] == c["target"]]
+        return {"failed": False, "raised": raised[:1],
+                "violations": [V("failure-not-reported", f"the {raised[0]['hook']} hook of {c['target']} raised and no ComponentException was produced", site="exception-path")] if raised else []}
+    pyrep = model_report(c["scenario"]["components"], c["target"])
+    analyse(c["scenario"], run_, c["target"], c["n"], "adapter" if str(c["hook"]).startswith("epics") else c["hook"], res, c, rep=dict(pyrep, source=None))
     return {"violations": [v["record"] for v in res.violations], "divergences": res.divergences[:3]}
